@@ -273,7 +273,10 @@ class Run:
                         verdict = None
                     if verdict is not None:
                         law, inp = verdict
-                        ok, detail = p.check_law(law, inp)
+                        try:
+                            ok, detail = p.check_law(law, inp)
+                        except Exception as e:  # the law does not apply to this input: stays a broken correspondence
+                            ok, detail = True, "law not applicable: " + type(e).__name__
                         if not ok:
                             self.concrete.append({"law": law, "input": inp, "detail": detail,
                                                   "origin": {"correspondence": op, "args": args2, "real": r2, "model": m2}})
